@@ -235,7 +235,7 @@ func main() {
 			cmd.Dir = filepath.Join(repo, j.b.pkg)
 			gmp := cfg.Gomaxprocs
 			if gmp <= 0 {
-				gmp = 2
+				gmp = 1
 			}
 			scratch := filepath.Join(tmp, "scratch", tag)
 			os.MkdirAll(scratch, 0o755)
@@ -320,7 +320,11 @@ func main() {
 		transitions += r.Transitions
 		execs += r.Executions
 		points += r.Points
-		distinct += r.DistinctOut
+		if r.Kind == "schedules" {
+			distinct += r.DistinctOut
+		} else {
+			distinct += r.States
+		}
 		if !r.Exhaustive {
 			exhaustive = false
 			caps = append(caps, r.Name+": "+r.CapHit)
@@ -378,7 +382,7 @@ func main() {
 	cov := map[string]any{
 		"states": states, "transitions": transitions, "traces_validated_against_impl": execs,
 		"evaluations": execs, "distinct_nontrivial": distinct,
-		"rule": firstNonEmpty(cfg.Rule, "every explored trace is an execution of the instrumented real code; states = schedules at the largest completed bound (schedule search), canonical states (history search) or distinct non-trivial input classes (input enumeration); distinct_nontrivial = sum over scenarios of distinct observable outcomes"),
+		"rule": firstNonEmpty(cfg.Rule, "every explored trace is an execution of the instrumented real code; states = schedules at the largest completed bound (schedule search), canonical states (history search) or distinct non-trivial input classes (input enumeration); distinct_nontrivial = sum over scenarios of distinct observable outcomes (schedule search) or distinct canonical states / input classes"),
 		"samples": samples, "exhaustive": exhaustive, "scheduling_points": points, "scenarios": len(results), "scenario_summaries": scen,
 		"build_s": buildS, "shards": shards, "packages": pkgDirs,
 	}
